@@ -77,6 +77,10 @@ def run(ctx):
     from rules import c03_border_offsets
     c03_border_offsets.run(ctx, ctx.crate("rel"))
     c03_border_offsets.tiebreaks(ctx, ctx.crate("rel"))
+    from rules.c03_vertices import cardinal_set
+    cardinal_set(ctx, ctx.crate("rel"))
+    from rules.c03_vertices import grid_ranges
+    grid_ranges(ctx, ctx.crate("rel"))
     from rules.c03_vertices import path_points
     path_points(ctx, ctx.crate("rel"))
     from rules.c03_vertices import decomposition_chain
